@@ -5,6 +5,8 @@ package main
 
 import (
 	"fmt"
+	"regexp"
+	"strconv"
 	"go/token"
 	"go/types"
 	"strings"
@@ -33,6 +35,13 @@ func (e *Engine) trustedCall(callee *ssa.Function, args []Val, st *State, reach 
 	if pkg == "strings" && callee.Name() == "IndexByte" && !e.bv() {
 		if s, ok := args[0].(StrV); ok {
 			return IntV{"(str.indexof " + s.T + " (str.from_code " + termOf(args[1]) + ") 0)"}, true
+		}
+	}
+	if pkg == "fmt" && callee.Name() == "Sprintf" && !e.bv() && len(args) == 2 {
+		// fmt.Sprintf with a literal format made of plain text and %d / %v / %s verbs over integers and strings:
+		// the concatenation of the text pieces and the decimal / verbatim renderings of the arguments
+		if t, ok := e.sprintfModel(st, args[0], args[1]); ok {
+			return StrV{t}, true
 		}
 	}
 	if pkg == "strconv" && callee.Name() == "Itoa" && !e.bv() && len(args) == 1 {
@@ -325,4 +334,107 @@ func (e *Engine) trustedTime(callee *ssa.Function, args []Val, st *State) (Val, 
 		}
 	}
 	return nil, false
+}
+
+var storeRe = regexp.MustCompile(`^\(store (.*) (\d+) ([^\s()]+)\)$`)
+
+func (e *Engine) sprintfModel(st *State, format Val, argv Val) (string, bool) {
+	fs, ok := format.(StrV)
+	if !ok {
+		return "", false
+	}
+	lit, isLit := smtStringLiteral(fs.T)
+	if !isLit {
+		return "", false
+	}
+	sv, ok := argv.(SliceV)
+	if !ok || sv.Arr == nil {
+		return "", false
+	}
+	n, isN := litInt(sv.Len)
+	if !isN || sv.Off != "0" {
+		return "", false
+	}
+	term, ok := e.arr(st, sv.Arr)[".u"]
+	if !ok {
+		return "", false
+	}
+	term = e.expandDefs(term)
+	elems := map[int64]string{}
+	for {
+		m := storeRe.FindStringSubmatch(term)
+		if m == nil {
+			break
+		}
+		idx, _ := strconv.ParseInt(m[2], 10, 64)
+		if _, seen := elems[idx]; !seen {
+			elems[idx] = m[3]
+		}
+		term = m[1]
+	}
+	var parts []string
+	arg := int64(0)
+	text := ""
+	flush := func() {
+		if text != "" {
+			parts = append(parts, smtString(text))
+			text = ""
+		}
+	}
+	for i := 0; i < len(lit); i++ {
+		if lit[i] != '%' {
+			text += string(lit[i])
+			continue
+		}
+		if i+1 >= len(lit) {
+			return "", false
+		}
+		verb := lit[i+1]
+		i++
+		if verb == '%' {
+			text += "%"
+			continue
+		}
+		if verb != 'd' && verb != 'v' && verb != 's' {
+			return "", false
+		}
+		if arg >= n {
+			return "", false
+		}
+		sym, ok := elems[arg]
+		arg++
+		if !ok {
+			return "", false
+		}
+		bv, ok := e.boxed[sym]
+		if !ok {
+			return "", false
+		}
+		flush()
+		switch x := bv.(type) {
+		case IntV:
+			if verb == 's' {
+				return "", false
+			}
+			parts = append(parts, "(ite (>= "+x.T+" 0) (str.from_int "+x.T+") (str.++ \"-\" (str.from_int (- "+x.T+"))))")
+		case StrV:
+			if verb == 'd' {
+				return "", false
+			}
+			parts = append(parts, x.T)
+		default:
+			return "", false
+		}
+	}
+	flush()
+	if arg != n {
+		return "", false
+	}
+	switch len(parts) {
+	case 0:
+		return "\"\"", true
+	case 1:
+		return parts[0], true
+	}
+	return "(str.++ " + strings.Join(parts, " ") + ")", true
 }
